@@ -672,7 +672,7 @@ func enumTriples(c *Ctx, cfg tripleCfg, props map[string]bool) {
 		var recT func(targets []uint64, hashes []Hash)
 		recT = func(targets []uint64, hashes []Hash) {
 			try(targets, hashes)
-			if cfg.Mismatch {
+			if cfg.Mismatch && len(targets) <= 1 {
 				if len(hashes) > 0 {
 					try(targets, hashes[:len(hashes)-1])
 				}
@@ -1073,7 +1073,7 @@ func init() {
 	}
 
 	Checks["C04"] = func(c *Ctx) {
-		c.Cov.Rule = "the C03 input space extended with mismatched list lengths, run through every entry point including Stump.Update with 0 and 2 additions, plus synthetic stumps with NumLeaves in {0..17, 2^31, 2^32-1, 2^32+1, 2^62+1, 2^63-1, 2^63, 2^63+1, 2^64-1} (popcount fresh roots) with boundary targets up to 2^64-1; oracle: no panic, every call returns (a watchdog re-executes any call that makes no progress for 20 s and reports it only if it never returns), and a rejected Stump.Update leaves the leaf count and every root unchanged; states = accumulator states, transitions = calls, non-trivial = accepted inputs and synthetic giant-stump inputs"
+		c.Cov.Rule = "the C03 input space extended with mismatched list lengths (one hash more / one fewer than targets, for lists of up to one target, and hashes without targets), run through every entry point including Stump.Update with 0 and 2 additions, plus synthetic stumps with NumLeaves in {0..17, 2^31, 2^32-1, 2^32+1, 2^62+1, 2^63-1, 2^63, 2^63+1, 2^64-1} (popcount fresh roots) with boundary targets up to 2^64-1; oracle: no panic, every call returns (a watchdog re-executes any call that makes no progress for 20 s and reports it only if it never returns), and a rejected Stump.Update leaves the leaf count and every root unchanged; states = accumulator states, transitions = calls, non-trivial = accepted inputs and synthetic giant-stump inputs"
 		props := map[string]bool{"C04": true}
 		vers := stdVerifiers(c.Thorough())
 		cfgA := tripleCfg{Nmin: 0, Nin: 3, T: 2, P: 2, Vers: vers, Mismatch: true}
